@@ -271,6 +271,10 @@ func (r *Result) Finish(verifDir string, findings []Finding, seed int64) int {
 			fmt.Printf("CONTROL-MISSED: property=%s control=%s: %s\n", r.Prop, c.Name, c.Detail)
 			r.Notes = append(r.Notes, "positive control "+c.Name+" did not fire: "+c.Detail)
 		}
+		if c.Status == "skipped" {
+			fmt.Printf("CONTROL-SKIPPED: property=%s control=%s: %s\n", r.Prop, c.Name, c.Detail)
+			r.Notes = append(r.Notes, "positive control "+c.Name+" not applicable to this tree: "+c.Detail)
+		}
 	}
 	replay := filepath.Join(evDir, r.Prop+".violations.json")
 	if len(viol) > 0 {
